@@ -45,6 +45,7 @@ type verifFSState struct {
 	mu      sync.Mutex
 	Root    string              // directory whose files are tracked ("" = nothing tracked)
 	FailAt  int                 // operation index that fails (0 = none)
+	FailKind string             // "op:file": every operation of that kind fails while set ("" = none)
 	After   func(op VerifOp)    // boundary callback
 	n       int                 // operations so far
 	now     time.Time           // controllable clock
@@ -56,7 +57,7 @@ type verifFSState struct {
 // VerifFS is the process-wide shim state (the driver runs one tracked snapshotter at a time).
 var VerifFS = &verifFSState{now: time.Unix(1700000000, 0), tickCh: make(chan *verifTicker, 16)}
 
-func (s *verifFSState) ResetOps() { s.mu.Lock(); s.n = 0; s.FailAt = 0; s.mu.Unlock() }
+func (s *verifFSState) ResetOps() { s.mu.Lock(); s.n = 0; s.FailAt = 0; s.FailKind = ""; s.mu.Unlock() }
 func (s *verifFSState) Ops() int  { s.mu.Lock(); defer s.mu.Unlock(); return s.n }
 func (s *verifFSState) SetFail(k int) { s.mu.Lock(); s.FailAt = k; s.mu.Unlock() }
 func (s *verifFSState) Advance(d time.Duration) { s.mu.Lock(); s.now = s.now.Add(d); s.mu.Unlock() }
@@ -80,14 +81,17 @@ func (s *verifFSState) tracked(path string) bool {
 }
 
 // begin numbers the operation and tells whether it must fail.
-func (s *verifFSState) begin() (idx int, fail bool) {
+// A fault WINDOW (FailKind = "op:file", e.g. "rename:snap.compact") fails every operation of that kind while it is set.
+func (s *verifFSState) begin(op, base string) (idx int, fail bool) {
 	s.mu.Lock()
 	s.n++
 	idx = s.n
-	fail = s.FailAt == idx
+	fail = s.FailAt == idx || (s.FailKind != "" && s.FailKind == op+":"+base)
 	s.mu.Unlock()
 	return
 }
+
+func (s *verifFSState) SetFailKind(k string) { s.mu.Lock(); s.FailKind = k; s.mu.Unlock() }
 
 func (s *verifFSState) end(op VerifOp) {
 	if s.After != nil {
@@ -201,7 +205,7 @@ func verifOpenFile(path string, flag int, perm os.FileMode) (*verifFile, error) 
 		}
 		return &verifFile{f: f, path: path}, nil
 	}
-	idx, fail := VerifFS.begin()
+	idx, fail := VerifFS.begin("open", filepath.Base(path))
 	op := VerifOp{Idx: idx, Op: "open", File: filepath.Base(path), Flag: flag}
 	if fail {
 		VerifFS.end(op)
@@ -223,7 +227,7 @@ func (v *verifFile) simple(name string, do func() error) error {
 	if !v.tracked {
 		return do()
 	}
-	idx, fail := VerifFS.begin()
+	idx, fail := VerifFS.begin(name, filepath.Base(v.path))
 	op := VerifOp{Idx: idx, Op: name, File: filepath.Base(v.path)}
 	var err error
 	if fail {
@@ -277,7 +281,7 @@ func (v *verifFile) Write(p []byte) (int, error) {
 	if !v.tracked {
 		return v.f.Write(p)
 	}
-	idx, fail := VerifFS.begin()
+	idx, fail := VerifFS.begin("write", filepath.Base(v.path))
 	op := VerifOp{Idx: idx, Op: "write", File: filepath.Base(v.path), Data: string(p)}
 	var n int
 	var err error
@@ -297,7 +301,7 @@ func verifRemove(path string) error {
 	if !VerifFS.tracked(path) {
 		return os.Remove(path)
 	}
-	idx, fail := VerifFS.begin()
+	idx, fail := VerifFS.begin("remove", filepath.Base(path))
 	op := VerifOp{Idx: idx, Op: "remove", File: filepath.Base(path)}
 	var err error
 	if fail {
@@ -314,7 +318,7 @@ func verifRename(from, to string) error {
 	if !VerifFS.tracked(from) && !VerifFS.tracked(to) {
 		return os.Rename(from, to)
 	}
-	idx, fail := VerifFS.begin()
+	idx, fail := VerifFS.begin("rename", filepath.Base(from))
 	op := VerifOp{Idx: idx, Op: "rename", File: filepath.Base(from)}
 	var err error
 	if fail {
